@@ -350,13 +350,10 @@ fn transition(t: &mut VPeerTracker, model: &Model, ev: &Ev, peers: usize) -> (Mo
                         format!("gc removed peer {p} (connected={connected}, protected tags {:?})", pm.tags),
                     ));
                 }
-                if !connected && !protected {
-                    match pm.expired {
-                        Expired::No if !real_kept => viol.push(("gc-removed-recently-disconnected-peer".into(), format!("gc removed peer {p} that was not expired"))),
-                        Expired::Yes if real_kept => viol.push(("gc-kept-expired-peer".into(), format!("gc kept peer {p}: disconnected, unprotected, aged {AGE:?}"))),
-                        _ => {}
-                    }
-                }
+                // Which disconnected, unprotected peers gc forgets (and when) is not part of the
+                // statement ("never forgets a connected or protected peer"): keeping an expired
+                // peer (e.g. a trusted one) or forgetting one early is not judged.  The model
+                // simply follows what the real tracker kept.
                 if real_kept {
                     next.insert(*p, pm.clone());
                 }
